@@ -689,7 +689,12 @@ func TestC08(t *testing.T) {
 		nt := false
 		cls := []string{"totality:" + in.Kind}
 		if in.Kind == "dsl" {
-			if _, err := transformer.TransformDSLToProto(in.Text); err != nil {
+			accepted := func() (ok bool) {
+				defer func() { _ = recover() }() // a panic is c08CheckInput's finding (msg), reported below
+				_, err := transformer.TransformDSLToProto(in.Text)
+				return err == nil
+			}
+			if !accepted() {
 				nt = true
 				cls = append(cls, "totality:dsl-rejected")
 			} else {
